@@ -104,6 +104,9 @@ pub fn gen_path(rng: &mut Rng, w: i32, h: i32, far: bool) -> Path {
 
 fn gen_transform(rng: &mut Rng, w: i32, h: i32) -> Transform {
     let (cx, cy) = (w as f32 / 2., h as f32 / 2.);
+    if rng.chance(0.08) {
+        return special_transform(rng, w as f64, h as f64);
+    }
     match rng.below(8) {
         0 | 1 => Transform::identity(),
         2 => Transform::translation(rng.range(-4., 4.) as f32, rng.range(-4., 4.) as f32),
@@ -174,14 +177,24 @@ pub fn run(ctx: &Ctx) -> Outcome {
         let aa = rng.chance(0.75);
         let as_clip = rng.chance(0.25);
         let mut dt = DrawTarget::new(w, h);
-        dt.set_transform(&t);
+        // one case in ten is drawn with user space magnified by a power of two and the path shrunk by the same
+        // factor (exact in f32; C11 checks that fills are bit-identical under it); the oracle keeps the case as written
+        let scaled = !far && i % 10 == 3;
+        let (real_t, real_path) = if scaled {
+            let k = (2.0f32).powi(*rng.pick(&[-14i32, -13, -12, -11, -10, -9, 9, 10, 11, 12]));
+            st.add("fills_drawn_under_a_power_of_two_user_scale", 1);
+            (Transform::scale(k, k).then(&t), path.clone().transform(&Transform::scale(1. / k, 1. / k)))
+        } else {
+            (t, path.clone())
+        };
+        dt.set_transform(&real_t);
         let cov: Vec<u8> = if as_clip {
-            dt.push_clip(&path);
+            dt.push_clip(&real_path);
             let c = effective_clip(&mut dt, w, h);
             dt.pop_clip();
             c
         } else {
-            dt.fill(&path, &Source::Solid(WHITE), &opts(BlendMode::SrcOver, 1., aa));
+            dt.fill(&real_path, &Source::Solid(WHITE), &opts(BlendMode::SrcOver, 1., aa));
             dt.get_data().iter().map(|p| (p >> 24) as u8).collect()
         };
         let res = check_fill(&cov, w, h, &path, &t, 1.0);
